@@ -197,6 +197,10 @@ func (s *memoryStore) SetNode(n store.Node) error {
 	s.mu.Lock()
 	defer s.mu.Unlock()
 	node := memNode{Node: n}
+	if existing, ok := s.nodes[n.ID]; ok {
+		// Updating a node keeps the peers it is tracked with.
+		node.peers = existing.peers
+	}
 	if node.peers == nil {
 		node.peers = map[store.NodeID]time.Time{}
 	}
